@@ -51,7 +51,7 @@ def validate_gc(traces, v):
         for e in traces:
             f.write(json.dumps(e) + "\n")
     r = vlib.tlc("Trace_Gc", "Trace_Gc", env={"TRACE": path}, workers=1, deque=True, timeout=3300, heap="24g")
-    os.remove(path)
+    vlib.drop_trace(path, "gc")
     if "NOT_CONSUMED" in r["out"] or r["distinct"] == 0 or any(e.startswith("Error:") for e in r["errors"]):
         raise vlib.ToolError("allocator trace validation did not complete:\n" + r["out"][-2500:])
     v.cov["states"] += r["distinct"]
